@@ -1,6 +1,6 @@
 """C05 -- killing trash-put at any instant loses nothing, leaves no orphan payload."""
 from .common import *  # noqa
-from .putroles import PutRoles, os_flags, is_left_test
+from .putroles import PutRoles, os_flags, is_left_test, success_tested_before
 
 EXPLANATION = (
     'A kill stops trash-put between two nodes of its inlined effect graph; the on-disk '
@@ -20,6 +20,14 @@ ASSUMPTIONS = ['A1 rename(2) atomic', 'A3 os.write of the info content is not sh
 MINIMUM = {'R05.1': 4, 'R05.2': 2, 'R05.3': 3}
 TEMPLATE = '[Trash Info]\nPath=%s\nDeletionDate=%s\n'
 
+
+# rules of sibling properties that are necessary conditions of this one too
+# (evaluated by the sibling module on the same graphs, reported under this property)
+ALSO = {'C01': {'R01.3': 'the reservation is released only when the payload did not move (also at a '
+                  'kill between the two)',
+         'R01.6': 'closed effect set: every crash point lies between these effects'},
+ 'C04': {'R04.1': 'exclusive creation',
+         'R04.6': "a kill/failed creation must not delete another process's info"}}
 
 def content_template(t):
     """The folded Fmt template(s) of a WRITE buffer term."""
@@ -57,8 +65,12 @@ def check(ctx):
         if not ok_dst:
             continue
         info_ids = frozenset(cid(i) for i in infos)
+        def dom(a, n):
+            # dominance that ignores self-contradicting paths (a failure handed on as a
+            # value and tested later is not a way around a)
+            return g.dominates(a, n) or cut_c(b, r.arg_iteration, n, [a])
         opens = [o for o in r.opens if alt_ids(r.info_of(o)) == info_ids and
-                 g.dominates(o.id, m.id)]
+                 dom(o.id, m.id)]
         ctx.ob('R05.1', 'MOVE is dominated by the exclusive creation of its own .trashinfo',
                bool(opens), node=m,
                message='the payload can be moved before (or without) the creation of the '
@@ -67,14 +79,14 @@ def check(ctx):
             fd = cid(o.data['result'])
             ws = [w for w in r.writes if cid(w.data['roles']['fd']) == fd]
             cs = [c for c in r.closes if cid(c.data['roles']['fd']) == fd]
-            chain_ok = any(g.dominates(o.id, w.id) and g.dominates(w.id, m.id) for w in ws) \
-                and any(g.dominates(c.id, m.id) and
+            chain_ok = any(g.dominates(o.id, w.id) and dom(w.id, m.id) for w in ws) \
+                and any(dom(c.id, m.id) and
                         any(g.dominates(w.id, c.id) for w in ws) for c in cs)
             ctx.ob('R05.1', 'OPEN(excl) -> WRITE -> CLOSE all dominate the MOVE', chain_ok,
                    node=m, message='the payload can arrive under files/ before its '
                                    '.trashinfo is completely written and closed')
             for x in [o] + ws + cs:
-                bad = m.id in g.reachable_from(exc_successors(b, x.id), blocked=[o.id])
+                bad = bool(reachable_c(b, exc_successors(b, x.id), [m.id], blocked=[o.id]))
                 ctx.ob('R05.1', 'MOVE is not reachable from a failed %s' % x.data['kind'],
                        not bad, node=x,
                        message='after a failed %s of the .trashinfo the payload is still '
@@ -96,12 +108,12 @@ def check(ctx):
                        message='the single WRITE does not carry the whole .trashinfo '
                                'template (found %r)' % tm)
         # no DELETE(info) after a completed MOVE (would orphan the payload)
-        after = g.reachable_from(normal_successors(b, m.id),
-                                 blocked=[o.id for o in r.opens])
         for d in r.deletes:
             if alt_ids(d.data['roles']['path']) == info_ids:
+                after = reachable_c(b, normal_successors(b, m.id), [d.id],
+                                    blocked=[o.id for o in r.opens])
                 ctx.ob('R05.1', 'the .trashinfo is never deleted after a completed MOVE',
-                       d.id not in after, node=d,
+                       not after, node=d,
                        message='the .trashinfo can be deleted after the payload was moved '
                                'into files/ (orphan payload)')
     # no other MOVE/WRITE outside the typestate
@@ -141,12 +153,9 @@ def is_volume_of_realpath(t, want):
 def gate_rule(ctx, r):
     b, g = r.b, r.g
     effects = r.mkdirs + r.opens + r.moves
+    cache = {}
     for e in effects:
-        tests = []
-        for c, pol, n in guards(b, e.id):
-            x = is_left_test(unwrap_not(c, pol)[0])
-            if x is not None and not unwrap_not(c, pol)[1]:
-                tests.append((x, n))
+        tests = [(rt.data['value'], rt) for rt in success_tested_before(b, r, e, cache)]
         gate_ok = False
         detail = 'no Either-typed gate result is tested before this effect'
         for x, n in tests:
@@ -209,7 +218,7 @@ def fallback_guards(b, g, site):
     """site is dominated by env TRASH_ENABLE_HOME_FALLBACK == '1'."""
     for n in g.assumes_dominating(site):
         c, pol = unwrap_not(n.data['cond'], n.data['pol'])
-        if isinstance(c, Cmp) and c.op == '==' and pol:
+        if isinstance(c, Cmp) and ((c.op == '==' and pol) or (c.op == '!=' and not pol)):
             for side, other in ((c.left, c.right), (c.right, c.left)):
                 if is_const(strip(other), '1') and contains(
                         side, lambda x: is_const(x, 'TRASH_ENABLE_HOME_FALLBACK')):
